@@ -111,7 +111,7 @@ def tmr_inst(name, P, K, isr, ops=None, tmax=7, weight=1, cap_quick=300):
         defs['OPSEQ'] = '{' + ','.join(str(o) for o in ops) + '}'
     return Inst(name, 'tmr_bmc.c', defs, unwind=max({0: 0, 1: 26, 2: 12, 3: 12}[isr], K + 2, tmax + 3, 10),
                 unwindset=dict({'COTmrDelete': b, 'COTmrProcess': b if isr < 2 else b + 1, 'COTmrInsert': b, 'COTmrRemove': b + 1, 'COTmrReset': P + 1,
-                                'check_pools': P + 2, 'CoVerifTmrPool': P + 1}, **({'check_due': max(P + 2, K + 1)} if isr == 0 else {})),
+                                'check_pools': P + 2, 'check_events': P + 2, 'CoVerifTmrPool': P + 1}, **({'check_due': max(P + 2, K + 1)} if isr == 0 else {})),
                 types=[], fp_override={'COTmrProcess.function_pointer_call.1': ['cb']}, weight=weight, objbits=9,
                 cap_quick=cap_quick, solver=[],      # MiniSat (cbmc default) is 2-4x faster than CaDiCaL on this family, and decides instances CaDiCaL does not finish (measured)
                 harness_only=['P', 'K', 'ISR', 'TMAX', 'OPSEQ', 'NPRE', 'ONESHOT'], family='tmr_bmc',
@@ -143,6 +143,8 @@ def c07(tier):
             if P > 2 and sum(1 for o in ops if o == 0) < P:
                 continue
             out.append(tmr_inst('tmr_bmc_p%d_%s' % (P, ''.join('CDTP'[o] for o in ops)), P, K, 0, ops, weight=1))
+    for ops in (((0, 0, 0, 0), (0, 0, 0, 2, 0)) if tier == 'quick' else ((0, 0, 0, 0), (0, 0, 0, 2, 0), (0, 0, 0, 0, 1))):
+        out.append(tmr_inst('tmr_bmc_p4_%s' % ''.join('CDTP'[o] for o in ops), 4, len(ops), 0, ops, tmax=7, weight=8, cap_quick=700))
     # deferred processing: three events fall due one after the other before a single process call
     for ops in (((0, 0, 0, 2, 2, 2, 3),) if tier == 'quick' else ((0, 0, 0, 2, 2, 2, 3), (0, 0, 0, 2, 2, 2, 3, 3), (0, 0, 2, 0, 2, 2, 3), (0, 0, 0, 2, 2, 2, 1))):
         out.append(tmr_inst('tmr_bmc_p3_%s' % ''.join('CDTP'[o] for o in ops), 3, len(ops), 0, ops, tmax=3, weight=8, cap_quick=700))
@@ -282,6 +284,10 @@ def c02(tier):
                 out.append(sdo_xfer_inst(3, 6, N, dom=dom, nseg=ns, lose=lose, fill=f))
     out += sdo_two_servers(tier)
     out += seg_step_insts(tier, 1)
+    # a download that follows an aborted / reset block transfer on the same server
+    for pre in (3, 4, 5, 8):
+        out.append(sdo_xfer_inst(3, 6, 2, pre=pre, dom=14, nseg=2, fill=3))
+        out.append(sdo_xfer_inst(1, 6, 2, pre=pre, dom=14, nseg=2, fill=3))
     return out
 
 
@@ -687,7 +693,7 @@ def c14(tier):
            tpdo_inst('aw_ab', 'NVMUGo', 0, 0, 254, map2=(link(0x2105, 0, 32), link(0x2103, 0, 8), link(0x2101, 0, 16))),
            tpdo_inst('aw_ab', 'NVMUOo', 0, 0, 254, vals=(2, 3, 2, 3, 2, 3, 2, 3, 2, 3, 2, 3)),
            tpdo_inst('aw_ab', 'NPVKUNYYG', 0, 0, 2, type2=255), tpdo_inst('aw_ab', 'NPVKUNYYY', 0, 0, 255, type2=1), tpdo_inst('aw_ab', 'NVKUYYYY', 0, 0, 2, type2=255),
-           rpdo_inst('b_d16_w'), rpdo_inst('b_l3_w', t0=1, seq='RS')]
+           rpdo_inst('b_d16_w'), rpdo_inst('b_l3_w', t0=1, seq='RS'), rpdo_inst('w_b', t0=240, seq='RS'), rpdo_inst('w_b', t0=240, seq='RLS'), rpdo_inst('w_b', t0=239, seq='RS')]
     uw = node_unwind(2)
     uw.update(lss_unwind())
     uw.update({'COSyncInit': 4, 'COSyncHandler': 4, 'COSyncUpdate': 4, 'COSyncRx': 9, 'CORPdoCheck': 4, 'CORPdoReset': 10, 'CORPdoWrite': 10, 'CORPdoGetMap': 10,
@@ -758,7 +764,7 @@ def tpdo_inst(mapname, seq, inh, evt, ttype, vals=(1, 1, 1, 1, 1, 1, 1, 1, 1), t
 
 def tpdo_nmt_insts():
     # NMT commands that do not change the mode must not disturb PDO communication (also part of C09)
-    return [tpdo_inst('aw_ab', 'NYNY', 0, 0, 2), tpdo_inst('aw_ab', 'NYNYNY', 0, 0, 3), tpdo_inst('aw_ab', 'NGGNTT', 20, 0, 254),
+    return [tpdo_inst('aw_ab', 'NGGSTT', 20, 0, 254), tpdo_inst('aw_ab', 'NGGPTT', 20, 0, 254), tpdo_inst('aw_ab', 'NGGPTNT', 20, 0, 254), tpdo_inst('aw_ab', 'NYNY', 0, 0, 2), tpdo_inst('aw_ab', 'NYNYNY', 0, 0, 3), tpdo_inst('aw_ab', 'NGGNTT', 20, 0, 254),
             tpdo_inst('aw_ab', 'NTNTT', 0, 2, 254), tpdo_inst('aw_ab', 'NGNGTT', 20, 0, 254)]
 
 
@@ -792,6 +798,8 @@ def c12(tier):
                                  ('NGVKUYYY', 0, 0, 255, 1), ('NYVKUYYY', 0, 0, 2, 3), ('NVKUTTG', 0, 2, 1, 254)):
         out.append(tpdo_inst('aw_ab', sq, inh, evt, tt, type2=t2))
     out += tpdo_nmt_insts()
+    for sq in ('NQ', 'NH', 'NHQ', 'NOH'):
+        out.append(tpdo_inst('al_aw_ab_b', sq, 0, 0, 254))
     out.append(tpdo_inst('aw_ab', 'NPVKUNYYG', 0, 0, 2, type2=255))
     out.append(tpdo_inst('aw_ab', 'NPVKUNYYY', 0, 0, 255, type2=1))
     for sq in ('NVMUG', 'NGVMUGO', 'VMUNG'):
@@ -823,7 +831,7 @@ def c17(tier):
     cfgs = []
     for G, types in ((2, (1, 2, 1)), (3, (1, 2, 1)), (3, (2, 1, 2)), (1, (1, 1, 1))):
         for sub in range(1, G + 1):
-            for sq in ('asB', 'asaB', 'asaN', 'asaC', 'arB', 'asar', 'asasB'):
+            for sq in ('asB', 'asaB', 'asaN', 'asaC', 'arB', 'asar', 'asasB', 'auuB'):
                 cfgs.append((G, types, sub, sq))
     if tier == 'quick':
         cfgs = [c for c in cfgs if not (c[0] == 3 and c[1][0] == 2 and c[3] not in ('asaC', 'asaN'))]
@@ -850,7 +858,7 @@ def csdo_inst(kind, dirn=0, size=4, beh=0, j=0, follow=1, cbtmr=False, cbreq=Fal
         defs['CBTMR'] = None
     if cbreq:
         defs['CBREQ'] = None
-    behs = ['conforming', 'abort at step %d' % j, 'silent from step %d' % j, 'unknown command at step %d' % j, 'wrong toggle at step %d' % j, 'oversized / foreign answer', 'final segment claiming 7 bytes']
+    behs = ['conforming', 'abort at step %d' % j, 'silent from step %d' % j, 'unknown command at step %d' % j, 'wrong toggle at step %d' % j, 'oversized / foreign answer', 'final segment claiming 7 bytes', 'segments beyond the announced size, never a last one']
     if kind == 1:
         return Inst('csdo_step', 'csdo_e2e.c', defs, unwind=602, unwindset=uw, objbits=10, csdo_cbs=['cb'], harness_only=['KIND', 'DIRN', 'SIZE', 'BEH', 'J', 'FOLLOW'],
                     family='csdo_e2e', bounds='segmented download context with 32-bit symbolic Size (5..600) and Buf_Idx, one segment confirmation')
@@ -886,6 +894,7 @@ def c19(tier):
     # upload whose final segment claims more data than remains
     for sz in ((5, 8, 15) if tier == 'quick' else (5, 6, 8, 9, 13, 15, 16, 22)):
         out.append(csdo_inst(0, 0, sz, 6, 0))
+        out.append(csdo_inst(0, 0, sz, 7, 0))
     return out
 
 
@@ -921,6 +930,13 @@ def c20(tier):
     # stack timers in front of / behind an application timer with different times (the reset deletes a partly elapsed head timer)
     for h, vs in (('WCT', (2, 3, 0)), ('CWT', (3, 2, 0)), ('WCTT', (3, 2, 0, 0)), ('XCT', (2, 3, 0)), ('khCT', (3, 0, 2, 0)), ('NECT', (0, 2, 3, 0))):
         for p in ('TTTT', 'NGTT', 'uvTT'):
+            out.append(reset_inst(h, p, vals=vs + (2, 2, 2, 2)))
+    # pending (not stored) LSS configuration at the reset; tick interrupt served but not yet processed at the reset
+    for p in ('sTTT', 'lsTT'):
+        out.append(reset_inst('LJ', p))
+        out.append(reset_inst('LJ', p, rst=129))
+    for h, vs in (('XTt', (2, 0, 0)), ('Wt', (1, 0)), ('khTt', (2, 0, 0, 0)), ('XWTt', (2, 2, 0, 0))):
+        for p in ('TTTT', 'YTTT'):
             out.append(reset_inst(h, p, vals=vs + (2, 2, 2, 2)))
     # LSS activate-bit-timing pending (node waits in INIT, switch-delay timer running) when the application resets the node
     for p in ('TTTT', 'lcrT', 'TTTTT'):
@@ -999,7 +1015,7 @@ def c01(tier):
     sw += [i for i in c14(tier) if '_preop' in i.name]
     sw += [i for i in c11(tier) if '_write' in i.name or i.name.endswith('_hb')][:(24 if tier == 'quick' else 200)]
     sw += [i for i in c15(tier) if '_preop_' in i.name and '_h2_' in i.name]
-    sw += [i for i in c19(tier) if i.name == 'csdo_step' or '_b5_' in i.name or '_b3_' in i.name]
+    sw += [i for i in c19(tier) if i.name == 'csdo_step' or '_b5_' in i.name or '_b3_' in i.name or '_b7_' in i.name or '_b6_' in i.name]
     sw += [i for i in c16(tier) if i.name.startswith('sync_')]
     sw += [i for i in c08(tier) if '_isr1_' in i.name][:(12 if tier == 'quick' else 60)]
     # timer histories long enough for a corrupted list to be walked / a freed action to be called
